@@ -6,9 +6,6 @@ package log
 
 // Logging entry points seen from other packages: they touch only the logger's own
 // state (frame assumption; the functions themselves are under contract for C20).
-//@ func (*ContextTracer).Submit
-//@   trusted
-//@   pure
 //@ func (*ContextTracer).Trace
 //@   trusted
 //@   pure
@@ -87,3 +84,112 @@ package log
 //@ func AddTracer
 //@   trusted
 //@   pure
+
+// ---- C20: no enabled log line is lost, duplicated or reordered (protocol obligations, A-seq)
+
+// log(): once the logger has started, a message is put into the buffer exactly once if its
+// level is at or above the level in force for its origin (package level if one is set for the
+// origin's package, else the global level), and not at all otherwise; the buffered line carries
+// the message, level and tracer given; a full buffer forces the writer and the line is still
+// enqueued exactly once; afterwards the writer is woken up
+//@ func log
+//@   nopanic off
+//@   modifies deref(logsWaitingFlag)
+//@   ghost var isStarted bool = false
+//@   ghost var pkgActive bool = false
+//@   ghost var nseg int = 0
+//@   ghost var found bool = false
+//@   ghost var sev Severity = 0
+//@   ghost var sent int = 0
+//@   ghost var flagged bool = false
+//@   at call (*AtomicBool).IsSet#0 assert arg0 == started
+//@   at after (*AtomicBool).IsSet#0 ghost isStarted = ret0
+//@   at call (*AtomicBool).IsSet#1 assert arg0 == pkgLevelsActive
+//@   at after (*AtomicBool).IsSet#1 ghost pkgActive = ret0
+//@   at after strings.Split ghost nseg = len(ret0)
+//@   at maplookup pkgLevels ghost found = found
+//@   at maplookup pkgLevels ghost sev = value
+//@   at send logBuffer assert value != nil && value.msg == msg && value.level == level && value.tracer == tracer
+//@   at select#0 assert chan0 == logBuffer && !blocking
+//@   at select#0 ghost sent = sent + (index == 0 ? 1 : 0)
+//@   at select#1 assert chan1 == logBuffer && chan0 == forceEmptyingOfBuffer && sent == 0
+//@   at select#1 ghost sent = sent + (index == 1 ? 1 : 0)
+//@   at call (*AtomicBool).SetToIf assert arg0 == logsWaitingFlag && sent == 1
+//@   at call (*AtomicBool).SetToIf ghost flagged = true
+//@   loop 0 invariant sent == 0 && !flagged
+//@   ensures !isStarted ==> sent == 0
+//@   ensures isStarted && !pkgActive ==> sent == (uint32(level) >= old(deref(logLevel)) ? 1 : 0)
+//@   ensures isStarted && pkgActive && nseg < 2 ==> sent == 0
+//@   ensures isStarted && pkgActive && nseg >= 2 && found ==> sent == (level >= sev ? 1 : 0)
+//@   ensures isStarted && pkgActive && nseg >= 2 && !found ==> sent == (uint32(level) >= old(deref(logLevel)) ? 1 : 0)
+//@   ensures sent == 1 ==> flagged
+
+// Submit: a started logger gets the trace as exactly one buffered line that refers to the
+// tracer (which keeps all other collected lines); nothing is enqueued for an empty or nil tracer
+//@ func (*ContextTracer).Submit
+//@   nopanic off
+//@   modifies tracer.logs, deref(logsWaitingFlag)
+//@   ghost var isStarted bool = false
+//@   ghost var n0 int = (tracer == nil ? 0 : len(tracer.logs))
+//@   ghost var sent int = 0
+//@   at after (*AtomicBool).IsSet ghost isStarted = ret0
+//@   at send logBuffer assert value != nil && value.tracer == tracer && len(tracer.logs) == n0 - 1
+//@   at select#0 assert chan0 == logBuffer && !blocking
+//@   at select#0 ghost sent = sent + (index == 0 ? 1 : 0)
+//@   at select#1 assert chan1 == logBuffer && sent == 0
+//@   at select#1 ghost sent = sent + (index == 1 ? 1 : 0)
+//@   loop 0 invariant sent == 0
+//@   ensures tracer != nil && isStarted && n0 > 0 ==> sent == 1
+//@   ensures tracer == nil || !isStarted || n0 == 0 ==> sent == 0
+
+// writer(): every line taken from the buffer is handed to the adapter exactly once, either
+// as a line of its own or counted in the duplicates of the directly preceding equal line;
+// the writer only returns through finalizeWriting, with nothing pending
+//@ func writer
+//@   nopanic off
+//@   modifies *
+//@   ghost var recv uint64 = 0
+//@   ghost var written uint64 = 0
+//@   ghost var fin bool = false
+// (only non-nil lines are ever put into the buffer: proved at the send sites of log and Submit)
+//@   at select logBuffer assume recv0 != nil
+//@   at select logBuffer ghost recv = recv + (index == 0 ? uint64(1) : uint64(0))
+//@   at call invoke.Write assert currentLine != nil && asType(arg0, *logLine) == currentLine && arg1 == duplicates
+//@   at call invoke.Write ghost written = written + 1 + arg1
+//@   at call (*logLine).Equal assert arg0 == nextLine && arg1 == currentLine
+//@   at call finalizeWriting assert recv == written
+//@   at call finalizeWriting ghost fin = true
+//@   at return assert fin && recv == written
+//@   loop 0 invariant recv == written && !fin
+//@   loop 1 invariant !fin && recv == written + (currentLine != nil ? 1 + duplicates : uint64(0)) && (currentLine == nil ==> duplicates == 0)
+
+// finalizeWriting(): drains the buffer, one adapter call per remaining line
+//@ func finalizeWriting
+//@   nopanic off
+//@   modifies *
+//@   ghost var recv int = 0
+//@   ghost var written int = 0
+//@   at select logBuffer ghost recv = recv + (index == 0 ? 1 : 0)
+//@   at call invoke.Write assert asType(arg0, *logLine) == line && arg1 == 0
+//@   at call invoke.Write ghost written = written + 1
+//@   at return assert recv == written
+//@   loop 0 invariant recv == written
+
+// Shutdown returns only after the writer goroutine has finished
+//@ func Shutdown
+//@   nopanic off
+//@   modifies *
+//@   ghost var waited bool = false
+//@   at call (*WaitGroup).Wait assert arg0 == shutdownWaitGroup
+//@   at call (*WaitGroup).Wait ghost waited = true
+//@   at return assert waited
+
+//@ func writerManager
+//@   nopanic off
+//@   modifies *
+//@   ghost var werr error = nil
+//@   ghost var ran bool = false
+//@   at after writer ghost werr = ret0
+//@   at after writer ghost ran = true
+//@   at return assert ran && werr == nil
+//@   loop 0 invariant true
